@@ -2177,3 +2177,227 @@ func oracleC09(r *report, g *G, n int, single string) {
 	stat("spec_accepted_variants_skipped", skipped)
 	r.sample(map[string]string{"frame": "2003000080", "class": "cut inside a multi-byte property length", "expect": "error, no packet"})
 }
+
+// ---------------------------------------------------------------- C13 / C14
+
+func init() {
+	oracles["C13"] = oracleC13
+	oracles["C14"] = oracleC14
+}
+
+// oracleC13 is meant to run in the binary built with -race: data races are
+// reported by the runtime on stderr; this function checks the bytes.
+func oracleC13(r *report, g *G, n int, single string) {
+	const workers = 8
+	for i := 0; i < n; i++ {
+		k := g.kind()
+		g.big = false
+		cs := g.domainCalls(k)
+		p := build(k, cs)
+		want := frameOf(p)
+		wantS, wantD, _ := renderBoth(p)
+		var shared *mq.Publish
+		if c, ok := p.(*mq.Connect); ok {
+			shared = c.Will() // also used directly by other goroutines
+		}
+		c := "W " + strconv.Itoa(k) + " A" + sp(cs)
+		var wg sync.WaitGroup
+		seeds := make([]int64, workers)
+		for w := range seeds {
+			seeds[w] = g.r.Int63()
+		}
+		for w := 0; w < workers; w++ {
+			wg.Add(1)
+			go func(seed int64) {
+				defer wg.Done()
+				defer func() {
+					if e := recover(); e != nil {
+						r.fail("concurrent-panic", c, fmt.Sprint(e))
+					}
+				}()
+				lg := newG(seed)
+				for j := 0; j < 20; j++ {
+					switch lg.pick(7) {
+					case 0, 1:
+						if f := frameOf(p); !bytesEq(f, want) {
+							r.fail("concurrent-bytes", c, "a concurrent WriteTo wrote "+trunc(hexs(f))+" sequential "+trunc(hexs(want)))
+						}
+					case 2:
+						if s := p.String(); s != wantS {
+							r.fail("concurrent-string", c, s)
+						}
+					case 3:
+						var b strings.Builder
+						mq.Dump(&b, p)
+						if b.String() != wantD {
+							r.fail("concurrent-dump", c, "Dump differs")
+						}
+					case 4:
+						if h, ok := p.(mq.HasWellFormed); ok {
+							h.WellFormed()
+						}
+						snapshot(p)
+					case 5:
+						if shared != nil {
+							frameOf(shared)
+							_ = shared.String()
+							snapshot(shared)
+						}
+					case 6:
+						// ReadPacket on a private stream
+						o := readOnce(oneChunk(want))
+						if o.kind != k {
+							r.fail("concurrent-read", c, o.verdict())
+						}
+					}
+				}
+			}(seeds[w])
+		}
+		wg.Wait()
+		r.eval(fmt.Sprintf("type%d", k), true, c)
+	}
+	r.sample(map[string]string{"case": "8 goroutines x 20 read-only operations on one shared CONNECT with will", "check": "race detector silent, all bytes equal the sequential encoding"})
+}
+
+func oracleC14(r *report, g *G, n int, single string) {
+	scribble := func(k int, body []byte) {
+		c := fmt.Sprintf("U %d z %s + overwrite input", k, hexs(body))
+		defer func() {
+			if e := recover(); e != nil {
+				// panics are C04's business
+			}
+		}()
+		data := append([]byte{}, body...)
+		p := zeroPacket(k)
+		if err := p.UnmarshalBinary(data); err != nil {
+			return
+		}
+		before := snapshot(p)
+		encBefore := encS(p)
+		for i := range data {
+			data[i] = ^data[i]
+		}
+		if after := snapshot(p); after != before {
+			r.fail("aliases-input", c, "before "+trunc(before)+" after "+trunc(after))
+			return
+		}
+		if e := encS(p); e != encBefore {
+			r.fail("aliases-input", c, "re-encoding changed after the input was overwritten")
+		}
+		r.eval(fmt.Sprintf("scribble-type%d", k), len(body) > 2, c)
+	}
+	if single != "" {
+		f := splitWS(single)
+		if len(f) == 4 && f[0] == "U" {
+			k, _ := strconv.Atoi(f[1])
+			scribble(k, unhex(f[3]))
+		}
+		return
+	}
+	scribble(0, []byte{1, 2, 3})
+	for i := 0; i < n; i++ {
+		f := g.validFrame()
+		_, hl := splitFrame(f)
+		if len(f) > 5000 || hl == 0 {
+			continue
+		}
+		scribble(int(f[0]>>4), f[hl:])
+		if g.chance(20) {
+			scribble(0, f[hl:])
+		}
+	}
+	// a pool of packets from separate decodes: operations on one leave the others alone
+	for round := 0; round < n/20+1; round++ {
+		var pool []mq.Packet
+		var frames [][]byte
+		var snaps []string
+		for len(pool) < 6 {
+			f := g.validFrame()
+			if len(f) > 3000 {
+				continue
+			}
+			o := readOnce(oneChunk(f))
+			if o.kind < 0 {
+				continue
+			}
+			pool = append(pool, o.p)
+			frames = append(frames, f)
+			snaps = append(snaps, snapshot(o.p))
+		}
+		for step := 0; step < 12; step++ {
+			i := g.pick(len(pool))
+			desc := ""
+			switch g.pick(4) {
+			case 0: // modify through setters
+				k := kindOf(pool[i])
+				for _, call := range g.calls(k, 1+g.pick(3)) {
+					func() {
+						defer func() { recover() }()
+						applyCall(pool[i], call)
+					}()
+					desc += call + " "
+				}
+			case 1: // write into slices the accessors hand out
+				desc = "scribble over returned slices"
+				switch p := pool[i].(type) {
+				case *mq.Connect:
+					scrib(p.Password())
+					scrib(p.AuthData())
+					if w := p.Will(); w != nil {
+						scrib(w.Payload())
+					}
+				case *mq.Publish:
+					scrib(p.Payload())
+					scrib(p.CorrelationData())
+				case *mq.SubAck:
+					scrib(p.ReasonCodes())
+				case *mq.Auth:
+					scrib(p.AuthData())
+				case *mq.Undefined:
+					scrib(p.Data())
+				}
+			case 2: // encode and render
+				desc = "encode/render"
+				frameOf(pool[i])
+				renderBoth(pool[i])
+			case 3: // decode the same frame again: same packet as the first time
+				desc = "decode again"
+				o := readOnce(oneChunk(frames[i]))
+				if o.kind < 0 || o.snap != snapshotOfFrame(frames[i]) {
+					r.fail("decode-depends-on-history", "R 1 "+hexs(frames[i]), "second decode differs")
+				}
+				continue
+			}
+			snaps[i] = snapshot(pool[i])
+			for j := range pool {
+				if j != i && snapshot(pool[j]) != snaps[j] {
+					r.fail("packets-interfere", fmt.Sprintf("pool op on #%d (%s): %s", i, hexs(frames[i]), trunc(desc)),
+						fmt.Sprintf("bystander #%d (%s) changed", j, hexs(frames[j])))
+					snaps[j] = snapshot(pool[j])
+				}
+			}
+			r.eval("pool-step", true, fmt.Sprintf("pool%d-%d-%s", round, step, desc))
+		}
+	}
+	if string(mq.VerifProtocolNameVar()) != "MQTT" {
+		r.fail("global-protocol-name-written", "mqtt5", string(mq.VerifProtocolNameVar()))
+	}
+	// a CONNECT must not hand out the package-level protocol name for writing
+	c1, c2 := mq.NewConnect(), mq.NewConnect()
+	c1.SetProtocolName("XQTT")
+	if c2.ProtocolName() != "MQTT" || string(mq.VerifProtocolNameVar()) != "MQTT" {
+		r.fail("global-protocol-name-written", "SetProtocolName", c2.ProtocolName())
+	}
+	r.sample(map[string]string{"case": "U 0 z 010203 + overwrite input", "check": "Data() unchanged"})
+}
+
+func scrib(b []byte) {
+	for i := range b {
+		b[i] ^= 0xff
+	}
+}
+
+func snapshotOfFrame(f []byte) string {
+	o := readOnce(oneChunk(f))
+	return o.snap
+}
